@@ -48,26 +48,32 @@ RULE = ('seeded random histories (3..12 steps quick, up to 40 thorough) over a p
 TRUSTED = ['hand-written Gallina state machine Model/History.v on top of Model/MPSOps.v, Model/GraphMPO.v (ring operations) — tied '
            'to /repo by the exact replay of ring histories; oracles stand for the LAPACK-dependent operations',
            'python emitters harness/emit.py and the pattern extraction in harness/props/c02.py (entry != 0 -> 1)']
-PARTIAL = ('proved (Properties/C02.v, every commutative ring with conjugation, all L, d, bond profiles, charges): the invariant is '
-           'preserved by add_mps, add_mpo, multiply_mpo, apply_operator (and their sparsity assertions can never fire on operands '
-           'satisfying it), established by MPO.identity, the MPS/MPO constructors, MPO.from_opgraph, MPS.from_vector (given chained '
-           'shapes), kept by merge + split under C12\'s contract (valid input proved), hence by every history of ring operations with '
-           'no hypothesis and by every history relative to the stated oracle contracts (history_inv_partial).  Oracle contracts that are '
-           'THEOREMS about the executable models: Orth (both modes), OrthMpo (both modes, C01), Compress (both modes, C13: result '
-           'satisfies the invariant, boundary bonds 1), split (C12), and -- round 2 -- single-site Tdvp / Dmrg: the sweep models keep '
-           'every site tensor block sparse under the current qD and every environment block under (psi.qD, H.qD, psi.qD) after each '
-           'local solver call + QR (the prologue assertion on BR cannot fire), relative to per-call contracts that are theorems for the '
-           'Krylov solvers whenever the call returns (zero patterns pass through Lanczos / Arnoldi / eigh_krylov / expm_krylov with NO '
-           'contract on norm, eigh_tridiagonal, exp; apply_local_hamiltonian / apply_local_bond_contraction / both environment steps map '
-           'charge-conserving arguments to charge-conserving results), for bond_ops.qr by C11 and for the preliminary orthonormalize by '
-           'C01.  Boundary charges: sums copy, products take outer sums, merge+split keeps, orthonormalize AND compress (both modes, '
-           'non-zero amplitude, L*tol < 1 or scale != 0) keep both.  NOT proved, validated per run: two-site TDVP / DMRG (sweep invariant '
-           'with merge+split not written), total charge through TDVP / DMRG, that solver calls return and the operator is charge '
-           'neutral with non-empty bonds (hypotheses of the single-site theorems); from_vector\'s shapes; the Hamiltonian constructors up '
-           'to from_opgraph (C05-C07)')
+PARTIAL = ('proved (Properties/C02.v, 57 theorems closed under the global context; every commutative ring with conjugation, all L, d, '
+           'bond profiles, charges): the invariant is preserved by add_mps, add_mpo, multiply_mpo, apply_operator (and their sparsity '
+           'assertions can never fire on operands satisfying it), established by MPO.identity, the MPS/MPO constructors, '
+           'MPO.from_opgraph, MPS.from_vector (given chained shapes), kept by merge + split under C12\'s contract (valid input proved), '
+           'hence by every history of ring operations with no hypothesis.  Round 3: NO hypothesis of the form "the result is block '
+           'sparse" is left in the history theorem (C02_history_inv): orthonormalize (MPS/MPO, both modes, C01), compress (both modes, '
+           'C13), split (C12) and ALL FOUR sweep functions -- single-site AND two-site TDVP / DMRG whole runs, any number of steps / '
+           'sweeps -- are their executable models, and the hypotheses are contracts of the numerical primitives on the calls actually '
+           'issued: LAPACK QR / SVD / argsort / abs for orthonormalize and compress, C11\'s conclusion for bond_ops.qr, C12\'s conclusion '
+           'for split_mps_tensor (block sparse factors under the returned bond charges), and for the Krylov local solvers only "the '
+           'call returns" (zero patterns pass through Lanczos / Arnoldi / eigh_krylov / expm_krylov with NO contract on norm, '
+           'eigh_tridiagonal, exp; also on the merged two-site tensor with the merged MPO tensor, C02_merge_mpo_ok).  The sweep models '
+           'keep every site tensor block sparse under the CURRENT qD and every environment block under (psi.qD, H.qD, psi.qD) after '
+           'each local update (the prologue assertion on BR cannot fire).  Boundary (total) charges: sums copy, products take outer '
+           'sums, merge+split keeps, orthonormalize and compress (both modes, non-zero amplitude, L*tol < 1 or scale != 0) keep both; '
+           'both TDVP integrators keep both for a state with a non-zero amplitude with NO hypothesis on solver / QR / split calls (the '
+           'sweeps rebind inner bonds only); both DMRG functions keep both (the closing QR of a sweep rebinds qD[0] to itself because the '
+           'centre tensor has norm one) relative to the contracts of C02 and C10 on the issued calls.  NOT proved, validated per run: '
+           'that solver calls return and the operator is charge neutral with non-empty bonds (hypotheses sweep_pre of the sweep '
+           'theorems); the split contract for an identically zero merged tensor (C12_split_mps_zero gives shapes only); DMRG total charge '
+           'with a truncating split (tol_split > 0); from_vector\'s shapes; the Hamiltonian '
+           'constructors up to from_opgraph (C05-C07)')
 ASSUMPTIONS = ['float64 arithmetic on integers below 2^50 is exact (ring histories stop before entries exceed it)',
-               'oracle contracts as listed in Properties/C02.v (C12 for split_matrix_svd, LAPACK QR / SVD / argsort / abs contracts for orthonormalize and '
-               'compress, C11\'s conclusion for the QR calls of the sweeps, "the Krylov call returns" for the local solvers)']
+               'oracle contracts as listed in Properties/C02.v (C02_history_inv: C12 for split_matrix_svd / split_mps_tensor, LAPACK QR / SVD / argsort / '
+               'abs contracts for orthonormalize and compress, C11\'s conclusion for the QR calls of the sweeps, "the Krylov call returns" for the '
+               'local solvers; for the DMRG total-charge theorem additionally C10\'s Ritz / exact-split / QR-factorisation contracts)']
 IMPL_PARALLEL = True
 SHARD = 12
 
